@@ -295,6 +295,24 @@ func c08Shapes(tier string) Harness {
 				}
 			}
 		}
+		// geometry: a shape may pass through the same coordinates more than once (loop, out-and-back,
+		// dwell); with no shape_dist_traveled the points are told apart by their sequence alone
+		geometry := c.Free("geometry", 3)
+		if geometry > 0 {
+			t := m.t("shapes.txt")
+			n := map[string]int{}
+			for r := range t.Rows {
+				id, _ := t.get(r, "shape_id")
+				k := n[id]
+				n[id]++
+				if geometry == 2 || k%2 == 0 { // 1: every other point of a shape is the same place; 2: all of them
+					t.set(r, "shape_pt_lat", "40.5")
+					t.set(r, "shape_pt_lon", "-73.25")
+				}
+				t.set(r, "shape_dist_traveled", "")
+			}
+			c.Witness("shape_revisits_a_coordinate")
+		}
 		perm := c.Perm("shapes.row", len(d))
 		permuteRows(m.t("shapes.txt"), perm)
 		identity := true
@@ -307,7 +325,7 @@ func c08Shapes(tier string) Harness {
 		if !identity {
 			c.Witness("shape_rows_permuted")
 		}
-		c08Compare(c, m, "shapes-row-order-irrelevant", fmt.Sprint(d, collide), !identity)
+		c08Compare(c, m, "shapes-row-order-irrelevant", fmt.Sprint(d, collide, geometry), !identity)
 	}
 }
 
@@ -316,6 +334,14 @@ func c08OtherFile(file string, n staticCounts) Harness {
 		m := genStaticFeedN(c, false, n, nil, nil)
 		sameZone(m)
 		t := m.t(file)
+		if file == "transfers.txt" && c.Free("one_more_row:a_transfer_from_a_stop_to_itself", 2) == 1 {
+			// such a row yields no transfer; the others keep their file order around it
+			row := append([]string{}, t.Rows[0]...)
+			t.Rows = append(t.Rows, row)
+			from, _ := t.get(0, "from_stop_id")
+			t.set(len(t.Rows)-1, "to_stop_id", from)
+			c.Witness("self_transfer_among_the_rows")
+		}
 		perm := c.Perm(file+".row", len(t.Rows))
 		permuteRows(t, perm)
 		identity := true
@@ -335,7 +361,7 @@ func init() {
 	register(&Check{
 		ID:    "C08",
 		Level: "model_checking",
-		Rule: "feeds with rows distributed over 2-3 trips / shapes (5 distributions of <=6 rows; thorough 6 distributions of <=8 rows), sequence numbers 2,10,100,0,33,... (text order != numeric order), ids 7 / 71 / 711 with sequences whose concatenation with the id collides, also shifted to straddle 2^31, spread beyond 2^32 and multiplied; ALL permutations of stop_times.txt rows (optionally one row without any time) and of shapes.txt rows; a trip of 9..130 stop times next to one of 2-3, each in ascending / descending / rotated / once-swapped order, long first, short first or interleaved; ALL permutations of the rows of agency, routes, stops, transfers, calendar, calendar_dates, trips, frequencies (3-5 rows each); " +
+		Rule: "feeds with rows distributed over 2-3 trips / shapes (5 distributions of <=6 rows; thorough 6 distributions of <=8 rows), sequence numbers 2,10,100,0,33,... (text order != numeric order), ids 7 / 71 / 711 with sequences whose concatenation with the id collides, also shifted to straddle 2^31, spread beyond 2^32 and multiplied; ALL permutations of stop_times.txt rows (optionally one row without any time) and of shapes.txt rows (shapes optionally revisiting the same coordinates at every other point or at all points, without distances); a trip of 9..130 stop times next to one of 2-3, each in ascending / descending / rotated / once-swapped order, long first, short first or interleaved; ALL permutations of the rows of agency, routes, stops, transfers, calendar, calendar_dates, trips, frequencies (3-5 rows each); " +
 			"non-trivial = distinct archives whose rows are not in identity order; oracles = reference interpretation + relation (feed up to row order -> dump)",
 		Assumptions: []string{"all agencies share one zone in this check (the first agency legitimately determines the zone of every date)", "reference targets are named by id so that a permuted collection compares independent of indices"},
 		Scenarios: func(tier string) []*Scenario {
